@@ -63,6 +63,8 @@ def programs(tier: str) -> list[dict]:
     progs = systematic(tier)
     for k in range(n):
         progs.append(progspace.random_program(rng, f"r{k}", int(rng.integers(1, 9))))
+    # calls to hand-written loopy kernels (static shapes; ptverif/lpkernels.py)
+    progs += list(progspace.fam_lpcall(rng, 150 if tier == "quick" else 1500))
     return progs
 
 
